@@ -123,6 +123,12 @@ def cases(tier, seed):
         else:
             cs.append({'gen': 'reshape_t', 'N': [n, n, n], 'target': [[n * n, n], [n, n * n], [n, 1, n, n], [n, n, n, 1]][(i // 3) % 4], 'eps': eps, 'vals': 'deep', 'dtype': dtp})
 
+    # badly balanced operands: a sum of two terms, the cores of the second scaled by 1/s at one position and by s at another (s = 100/eps; every entry of
+    # the sum stays of order one).  A truncation threshold taken relative to a LOCAL core norm (an operand not brought into an orthogonal gauge first) drops the first term there.
+    pool = [c for c in cs if c['gen'] in ('reshape_t', 'reshape_m', 'permute') and len(c['N']) >= 2 and not c.get('fullrank') and c['vals'] != 'deep']
+    rng.shuffle(pool)
+    for i, c in enumerate(pool[:(240 if not T else 2400)]):
+        cs.append(dict(c, vals='unbal', eps=[1e-6, 1e-3, 1e-5][i % 3], dtype=['f64', 'c128'][(i // 3) % 2]))
     from .. import hist
     cs += hist.cases(PROP, tier, seed)
     return cs
@@ -156,6 +162,23 @@ def build(case, g, N, M=None):
         # superdiagonal tensor with singular values 10^(-1.25 j) on every bond (down to 1e-12 of the norm), gauged: truncation decisions that matter only at tiny eps
         from .c02 import build as build_c02
         return build_c02({'kind': 'gauge_deep', 'N': list(N), 'M': ([1] * d if M else None), 'dtype': case['dtype'], 'seed': case['seed'], 'gen': 'breakpoints'}, None, g)
+    if vals == 'unbal':
+        import torchtt
+        s_ = 100.0 / case['eps']
+        i, j = rr.sample(range(d), 2)
+        Rq = [1] + [rr.randint(1, 2) for _ in range(d - 1)] + [1]
+        cp, cq = gens.make_cores(N, R, dt, 'gauss', g, M=M), gens.make_cores(N, Rq, dt, 'gauss', g, M=M)
+        cq[i], cq[j] = cq[i] / s_, cq[j] * s_
+        out = []
+        for k in range(d):
+            a, b = cp[k], cq[k]
+            sh = list(a.shape)
+            sh[0], sh[-1] = (1 if k == 0 else a.shape[0] + b.shape[0]), (1 if k == d - 1 else a.shape[-1] + b.shape[-1])
+            c = torch.zeros(sh, dtype=dt)
+            c[(slice(0, a.shape[0]),) + (slice(None),) * (a.dim() - 2) + (slice(0, a.shape[-1]),)] = a
+            c[(slice(sh[0] - b.shape[0], sh[0]),) + (slice(None),) * (a.dim() - 2) + (slice(sh[-1] - b.shape[-1], sh[-1]),)] += b
+            out.append(c)
+        return torchtt.TT(out)
     if vals == 'decay':
         # cores whose singular spectra decay geometrically: truncation at loose eps is really active
         cores = gens.make_cores(N, R, dt, 'gauss', g, M=M)
